@@ -7,6 +7,7 @@ namespace Psutil.C18
 def cfg : Cfg :=
   { shift := Gen.C18.ioprioClassShift
     macrosCanonical := Gen.C18.ioprioMacrosCanonical
+    nativeRange := Gen.C18.ioprioSetRangeCheck
     defaultLevel := Gen.C18.ioniceDefaultLevel
     levelMin := Gen.C18.ioniceLevelMin
     levelMax := Gen.C18.ioniceLevelMax
